@@ -71,6 +71,15 @@ CHECKS = {
              "same TLA+ operator; each case is rendered with random spacing/parentheses and observed on the real validator "
              "through `in` traces (values), the maxCount trace (distinct count) and nested sub-results (nodes).",
         ref="DESIGN.md §6 C02", technique="TLA+ denotational spec + exhaustive path enumeration (TLC) replayed into the validator"),
+    "C07": dict(
+        text="spec/Names.tla models the identifiers the translator invents (letter table, plurals, reserved words of the policy "
+             "language and of the preamble) and TLC checks NoReserved/DistinctInScope for up to 60 allocations (refuted for the "
+             "shipped table at index 11); spec/ShapeCases.tla enumerates the shape space of well-formed declarative profiles "
+             "(25 constraint kinds x 10 path shapes x 8 connective contexts; siblings x depth x context x quantifier; number of "
+             "validations; hash-sampled remainder), evaluating the naming invariants for the variables each shape needs; every "
+             "emitted shape is rendered, compiled with CompileProfile and run once.",
+        ref="DESIGN.md §6 C07", technique="TLA+ model of identifier allocation + TLC-enumerated shape space replayed into CompileProfile",
+        note=TLC_NOTE + " The accepting oracle is OPA's compiler itself; nesting depth is capped at 8 because OPA's compile time grows ~3.5x per level."),
 }
 
 NOT_YET = "no check registered yet for this property in the current state of the framework (design in DESIGN.md §6)"
